@@ -305,6 +305,9 @@ let piece_string = function
   | PcErr e -> rterr_string e
   | PcPanic -> "PANIC"
 
+(* a panic aborts the whole call *)
+let pieces_out l = if List.mem PcPanic l then "PANIC" else join_or_dash (List.map piece_string l)
+
 let api_probe (r : regex) (limit : n option) (names : (nat list * nat) list) (t : nat list) (p : string) : string =
   let ng = int_of_nat (regex_ngroups r) in
   let srch = regex_search r max_stack_nat limit fuel_big t in
@@ -323,11 +326,10 @@ let api_probe (r : regex) (limit : n option) (names : (nat list * nat) list) (t 
                       (collect t srch bound m_init))
   | ["caps_iter"] ->
       join_or_dash (List.map (function ItOk (_, _, sv) -> caps_string ng sv | ItErr e -> rterr_string e)
-                      (collect t srch bound m_init))
-  | ["split"] -> join_or_dash (List.map piece_string (split_collect t srch bound sp_init))
+                      (ccollect t srch bound m_init))
+  | ["split"] -> pieces_out (split_collect t srch bound sp_init)
   | ["splitn"; k] ->
-      join_or_dash (List.map piece_string
-        (splitn_collect t srch bound { sn_s = sp_init; sn_limit = nat_of_int (int_of_string k) }))
+      pieces_out (splitn_collect t srch bound { sn_s = sp_init; sn_limit = nat_of_int (int_of_string k) })
   | ["replacen"; lim; kind; arg] ->
       let argb = bytes_of_hex arg in
       let rep (sv : val0 list) : nat list =
@@ -339,7 +341,9 @@ let api_probe (r : regex) (limit : n option) (names : (nat list * nat) list) (t 
         | _ -> (match cap_get sv O with
                 | Some (V a, V b) -> firstn_l (int_of_nat b - int_of_nat a) (skipn a t)
                 | _ -> []) in
-      (match try_replacen t srch rep (nat_of_int (int_of_string lim)) with
+      let fast = (match kind with "N" -> true | "T" -> not (List.exists (fun b -> int_of_nat b = 36) argb) | _ -> false) in
+      let nx = if fast then mnext t srch else cnext t srch in
+      (match try_replacen t rep nx (nat_of_int (int_of_string lim)) with
        | RBorrowed -> "B" | ROwned s -> "O:" ^ hex_of_bytes s | RErr e -> rterr_string e | RPanicR -> "PANIC")
   | ["meta"] ->
       let nm = List.sort compare (List.map (fun (n, i) -> (int_of_nat i, hex_of_bytes n)) names) in
